@@ -23,6 +23,19 @@ import (
 
 var theT *testing.T // set by TestHarness
 
+// errPanic stands for a panic inside the client, caught by the harness.
+var errPanic = errors.New("harness: the client panicked")
+
+func safely(f func() error) (err error) {
+	defer func() {
+		if r := recover(); r != nil {
+			fmt.Fprintf(os.Stderr, "client panic: %v\n", r)
+			err = errPanic
+		}
+	}()
+	return f()
+}
+
 // error class bit-vector, mirrors Session.v
 func classOf(err error) uint64 {
 	if err == nil {
@@ -71,6 +84,7 @@ func classOf(err error) uint64 {
 	is(errSimDial, 262144)
 	is(errSimHard, 524288)
 	is(io.ErrUnexpectedEOF, 1048576)
+	is(errPanic, 2097152)
 	_ = os.ErrDeadlineExceeded
 	return c
 }
@@ -95,6 +109,9 @@ type scenario struct {
 	conns      map[*simConn]*brokerConn
 	budgetIn   int // broker-initiated publishes left
 	hostile    bool
+	wscript    []writeAns // when non-empty: the fate of the next writes
+	noFaults   bool       // suspend random faults (scripted parts of a history)
+	inject     [][]byte   // broker packets to deliver next, before anything else
 }
 
 type seqOpts struct {
@@ -137,7 +154,16 @@ func ack4(head byte, id uint16) []byte { return []byte{head, 2, byte(id >> 8), b
 // complete packets.
 func (sc *scenario) onWrite(c *simConn, p []byte) writeAns {
 	a := writeAns{kind: wOk, n: len(p)}
-	if sc.r.intn(1000) < sc.opts.faultRate {
+	if len(sc.wscript) != 0 {
+		a = sc.wscript[0]
+		sc.wscript = sc.wscript[1:]
+		if a.n > len(p) {
+			a.n = len(p)
+		}
+		if a.kind == wTimeout && !c.armedW {
+			a.kind = wHard
+		}
+	} else if !sc.noFaults && sc.r.intn(1000) < sc.opts.faultRate {
 		switch sc.r.intn(3) {
 		case 0:
 			if c.armedW {
@@ -159,6 +185,12 @@ func (sc *scenario) lost() bool { return sc.r.intn(1000) < sc.opts.lossRate }
 
 func (sc *scenario) react(c *simConn, all []byte) {
 	b := sc.bc(c)
+	defer func() {
+		// the broker does not understand what the client wrote: ignore the rest
+		if recover() != nil {
+			b.parsed = len(all)
+		}
+	}()
 	for {
 		rest := all[b.parsed:]
 		if len(rest) < 2 {
@@ -334,6 +366,11 @@ func (sc *scenario) hostilePacket() []byte {
 // onRead serves the next read of the connection.
 func (sc *scenario) onRead(c *simConn, armed bool, want int) readAns {
 	b := sc.bc(c)
+	if len(sc.inject) != 0 && b.gotConn && len(b.queue) == 0 {
+		p := sc.inject[0]
+		sc.inject = sc.inject[1:]
+		return readAns{kind: rData, data: p}
+	}
 	if len(b.queue) != 0 {
 		a := b.queue[0]
 		b.queue = b.queue[1:]
@@ -407,6 +444,9 @@ type hist struct {
 	// Online is still released; lockWrite spins until ReadSlices notices
 	writeFailed bool
 	wasClosed   bool
+	cid, cfgTerm string
+	initEvs      []event
+	label        string
 }
 
 func (h *hist) online() bool {
@@ -500,7 +540,7 @@ func (h *hist) spawn(op string, f func(quit <-chan struct{}) error) {
 	rid := h.nextR
 	h.nextR++
 	p := &parkedReq{rid: rid, quit: make(chan struct{}), result: make(chan error, 1), locked: !h.online()}
-	go func() { p.result <- f(p.quit) }()
+	go func() { p.result <- safely(func() error { return f(p.quit) }) }()
 	h.settle()
 	select {
 	case err := <-p.result:
@@ -535,7 +575,8 @@ func (h *hist) doRead() {
 	// successful connect: let this connect attempt fail instead
 	h.sc.forceDialFail = h.lockParked()
 	h.bigMsg = nil
-	msg, topic, err := h.client.ReadSlices()
+	var msg, topic []byte
+	err := safely(func() (e error) { msg, topic, e = h.client.ReadSlices(); return })
 	h.sc.forceDialFail = false
 	var big *mqtt.BigMessage
 	switch {
@@ -583,7 +624,9 @@ func (h *hist) adopt() {
 	max1, max2 := h.sc.opts.max1, h.sc.opts.max2
 	cfg := h.cfg
 	cfg.AtLeastOnceMax, cfg.ExactlyOnceMax = max1, max2
-	c, warn, fatal := mqtt.AdoptSession(h.store, &cfg)
+	var c *mqtt.Client
+	var warn []error
+	fatal := safely(func() (e error) { c, warn, e = mqtt.AdoptSession(h.store, &cfg); return })
 	if fatal == nil {
 		h.old = append(h.old, h.client)
 		h.client = c
@@ -641,20 +684,18 @@ func coqCfg(o seqOpts, cfg *mqtt.Config) string {
 		wmin.Milliseconds(), wmax.Milliseconds())
 }
 
-// runHistory plays one seeded history and returns the Coq term.
-func runHistory(r *rng, o seqOpts, stats map[string]int) (term string, nontrivial bool, desc map[string]any) {
-	restore := mqtt.VerifSetReadBufSize(o.bufSize)
-	defer restore()
+// newHist sets up the environment and runs InitSession.
+func newHist(r *rng, o seqOpts, stats map[string]int) (h *hist, initTerm string, ok bool) {
 	log := &evlog{}
 	sc := &scenario{r: r, opts: o, awaitRel: map[uint16]bool{}, conns: map[*simConn]*brokerConn{}, budgetIn: o.steps}
-	h := &hist{sc: sc, log: log, store: newSimStore(log), parked: map[int]*parkedReq{}, exch: map[int]<-chan error{}, nextX: 1, stats: stats}
+	h = &hist{sc: sc, log: log, store: newSimStore(log), parked: map[int]*parkedReq{}, exch: map[int]<-chan error{}, nextX: 1, stats: stats}
 	h.dialer = &simDialer{log: log, onDial: func(id int) (*simConn, bool) {
-		if sc.forceDialFail || r.intn(1000) < o.faultRate {
+		if sc.forceDialFail || (!sc.noFaults && r.intn(1000) < o.faultRate) {
 			return nil, false
 		}
 		return &simConn{onRead: sc.onRead, onWrite: sc.onWrite}, true
 	}}
-	h.store.onOp = func(kind string, key uint) bool { return r.intn(1000) < o.storeFaults }
+	h.store.onOp = func(kind string, key uint) bool { return !sc.noFaults && r.intn(1000) < o.storeFaults }
 	h.cfg = mqtt.Config{Dialer: h.dialer.dial, AtLeastOnceMax: o.max1, ExactlyOnceMax: o.max2, CleanSession: o.clean, KeepAlive: uint16(r.intn(3) * 30)}
 	if o.pause {
 		h.cfg.PauseTimeout = time.Second
@@ -672,19 +713,177 @@ func runHistory(r *rng, o seqOpts, stats map[string]int) (term string, nontrivia
 		h.cfg.Will.Message = []byte("gone")
 		h.cfg.Will.AtLeastOnce = r.chance(1, 2)
 	}
-	cid := fmt.Sprintf("c%d", r.intn(100))
-	cfgTerm := coqCfg(o, &h.cfg)
+	h.cid = fmt.Sprintf("c%d", r.intn(100))
+	h.cfgTerm = coqCfg(o, &h.cfg)
 	faults := h.store.onOp
 	h.store.onOp = nil
 	cfg := h.cfg
-	client, err := mqtt.InitSession(cid, h.store, &cfg)
+	client, err := mqtt.InitSession(h.cid, h.store, &cfg)
 	h.store.onOp = faults
-	initEvs := log.take()
+	h.initEvs = log.take()
 	if err != nil {
-		return fmt.Sprintf("Hist %s %s %s %d []", cfgTerm, coqString(cid), coqEvents(initEvs), classOf(err)), false, nil
+		return h, fmt.Sprintf("Hist %s %s %s %d []", h.cfgTerm, coqString(h.cid), coqEvents(h.initEvs), classOf(err)), false
 	}
 	h.client = client
+	return h, "", true
+}
 
+// finish leaves no goroutine behind and renders the history.
+func (h *hist) finish(o seqOpts) (term string, nontrivial bool, desc map[string]any) {
+	// close every client and let ReadSlices see it
+	h.store.onOp = nil
+	h.sc.noFaults = true
+	for _, c := range append(h.old, h.client) {
+		c.Close()
+		for j := 0; j < 4; j++ {
+			if _, _, err := c.ReadSlices(); errors.Is(err, mqtt.ErrClosed) {
+				break
+			}
+		}
+	}
+	for _, p := range h.parked {
+		select {
+		case <-p.quit:
+		default:
+			close(p.quit)
+		}
+	}
+	h.settle()
+	h.log.take()
+
+	term = fmt.Sprintf("Hist %s %s %s 0 [\n    %s]", h.cfgTerm, coqString(h.cid), coqEvents(h.initEvs), strings.Join(h.steps, ";\n    "))
+	desc = map[string]any{"kind": "history", "steps": len(h.steps), "bufsize": o.bufSize, "pause": o.pause,
+		"max": []int{o.max1, o.max2}, "fault_per_mille": o.faultRate, "store_fault_per_mille": o.storeFaults,
+		"loss_per_mille": o.lossRate, "hostile": o.hostile}
+	if h.label != "" {
+		desc["scenario"] = h.label
+	}
+	return term, h.nontriv, desc
+}
+
+// runScripted plays a hand-written scenario.
+func runScripted(r *rng, o seqOpts, stats map[string]int, script func(h *hist)) (term string, nontrivial bool, desc map[string]any) {
+	restore := mqtt.VerifSetReadBufSize(o.bufSize)
+	defer restore()
+	h, t, ok := newHist(r, o, stats)
+	if !ok {
+		return t, false, nil
+	}
+	script(h)
+	return h.finish(o)
+}
+
+// runHistory plays one seeded random history and returns the Coq term.
+func runHistory(r *rng, o seqOpts, stats map[string]int) (term string, nontrivial bool, desc map[string]any) {
+	restore := mqtt.VerifSetReadBufSize(o.bufSize)
+	defer restore()
+	h, t, ok := newHist(r, o, stats)
+	if !ok {
+		return t, false, nil
+	}
+	h.randomOps(r, o)
+	return h.finish(o)
+}
+
+func (h *hist) publish(retain bool, msg []byte, topic string) {
+	op := fmt.Sprintf("OpPublish %s %s %s", coqBool(retain), coqBytes(msg), coqString(topic))
+	h.spawn(op, func(q <-chan struct{}) error {
+		if retain {
+			return h.client.PublishRetained(q, msg, topic)
+		}
+		return h.client.Publish(q, msg, topic)
+	})
+}
+
+func (h *hist) pubP(level int, retain bool, msg []byte, topic string) {
+	var ch <-chan error
+	err := safely(func() (err error) {
+		switch {
+		case level == 1 && !retain:
+			ch, err = h.client.PublishAtLeastOnce(msg, topic)
+		case level == 1:
+			ch, err = h.client.PublishAtLeastOnceRetained(msg, topic)
+		case !retain:
+			ch, err = h.client.PublishExactlyOnce(msg, topic)
+		default:
+			ch, err = h.client.PublishExactlyOnceRetained(msg, topic)
+		}
+		return
+	})
+	op := fmt.Sprintf("OpPubP %d %s %s %s", level, coqBool(retain), coqBytes(msg), coqString(topic))
+	if err != nil {
+		h.stats[fmt.Sprintf("pubp:err:%d", classOf(err))]++
+		h.record(op, fmt.Sprintf("RetErr %d", classOf(err)))
+	} else {
+		x := h.nextX
+		h.nextX++
+		h.exch[x] = ch
+		h.stats["pubp:ok"]++
+		h.record(op, fmt.Sprintf("RetExch %d", x))
+	}
+}
+
+func (h *hist) subscribe(level int, fs []string) {
+	op := fmt.Sprintf("OpSub %d %s", level, coqFilters(fs))
+	h.spawn(op, func(q <-chan struct{}) error {
+		switch level {
+		case 0:
+			return h.client.SubscribeLimitAtMostOnce(q, fs...)
+		case 1:
+			return h.client.SubscribeLimitAtLeastOnce(q, fs...)
+		}
+		return h.client.Subscribe(q, fs...)
+	})
+}
+
+func (h *hist) unsubscribe(fs []string) {
+	op := fmt.Sprintf("OpUnsub %s", coqFilters(fs))
+	h.spawn(op, func(q <-chan struct{}) error { return h.client.Unsubscribe(q, fs...) })
+}
+
+func (h *hist) ping() {
+	h.spawn("OpPing", func(q <-chan struct{}) error { return h.client.Ping(q) })
+}
+
+func (h *hist) quit(rid int) {
+	close(h.parked[rid].quit)
+	for j := 0; j < 100; j++ {
+		h.settle()
+		if len(h.parked[rid].result) != 0 {
+			break
+		}
+	}
+	h.stats["quit"]++
+	h.record(fmt.Sprintf("OpQuit %d", rid), "RetErr 0")
+}
+
+func (h *hist) readAll() {
+	var b []byte
+	big := h.bigMsg
+	err := safely(func() (e error) { b, e = big.ReadAll(); return })
+	h.bigMsg = nil
+	if err != nil {
+		h.record("OpReadAll", fmt.Sprintf("RetErr %d", classOf(err)))
+	} else {
+		h.record("OpReadAll", "RetBytes "+coqBytes(b))
+	}
+}
+
+func (h *hist) close() {
+	err := safely(h.client.Close)
+	h.stats["close"]++
+	h.wasClosed = true
+	h.record("OpClose", fmt.Sprintf("RetErr %d", classOf(err)))
+}
+
+func (h *hist) disconnect() {
+	err := safely(func() error { return h.client.Disconnect(make(chan struct{})) })
+	h.stats["disconnect"]++
+	h.wasClosed = true
+	h.record("OpDisconnect", fmt.Sprintf("RetErr %d", classOf(err)))
+}
+
+func (h *hist) randomOps(r *rng, o seqOpts) {
 	topics := []string{"a", "b/c", "t"}
 	for i := 0; i < o.steps && !h.closed; i++ {
 		k := r.intn(100)
@@ -702,42 +901,14 @@ func runHistory(r *rng, o seqOpts, stats map[string]int) (term string, nontrivia
 			if r.chance(1, 20) {
 				topic = "" // denied
 			}
-			op := fmt.Sprintf("OpPublish %s %s %s", coqBool(retain), coqBytes(msg), coqString(topic))
-			h.spawn(op, func(q <-chan struct{}) error {
-				if retain {
-					return h.client.PublishRetained(q, msg, topic)
-				}
-				return h.client.Publish(q, msg, topic)
-			})
+			h.publish(retain, msg, topic)
 		case k < 70:
 			level, retain := 1+r.intn(2), r.chance(1, 4)
 			msg, topic := r.bytes(r.intn(8)), topics[r.intn(3)]
 			if r.chance(1, 25) {
 				topic = "\xff" // denied
 			}
-			var ch <-chan error
-			var err error
-			switch {
-			case level == 1 && !retain:
-				ch, err = h.client.PublishAtLeastOnce(msg, topic)
-			case level == 1:
-				ch, err = h.client.PublishAtLeastOnceRetained(msg, topic)
-			case !retain:
-				ch, err = h.client.PublishExactlyOnce(msg, topic)
-			default:
-				ch, err = h.client.PublishExactlyOnceRetained(msg, topic)
-			}
-			op := fmt.Sprintf("OpPubP %d %s %s %s", level, coqBool(retain), coqBytes(msg), coqString(topic))
-			if err != nil {
-				h.stats[fmt.Sprintf("pubp:err:%d", classOf(err))]++
-				h.record(op, fmt.Sprintf("RetErr %d", classOf(err)))
-			} else {
-				x := h.nextX
-				h.nextX++
-				h.exch[x] = ch
-				h.stats["pubp:ok"]++
-				h.record(op, fmt.Sprintf("RetExch %d", x))
-			}
+			h.pubP(level, retain, msg, topic)
 		case k < 76:
 			n := 1 + r.intn(3)
 			if r.chance(1, 15) {
@@ -747,23 +918,11 @@ func runHistory(r *rng, o seqOpts, stats map[string]int) (term string, nontrivia
 			for j := range fs {
 				fs[j] = topics[r.intn(3)] + fmt.Sprint(r.intn(3))
 			}
-			level := r.intn(3)
-			op := fmt.Sprintf("OpSub %d %s", level, coqFilters(fs))
-			h.spawn(op, func(q <-chan struct{}) error {
-				switch level {
-				case 0:
-					return h.client.SubscribeLimitAtMostOnce(q, fs...)
-				case 1:
-					return h.client.SubscribeLimitAtLeastOnce(q, fs...)
-				}
-				return h.client.Subscribe(q, fs...)
-			})
+			h.subscribe(r.intn(3), fs)
 		case k < 80:
-			fs := []string{topics[r.intn(3)]}
-			op := fmt.Sprintf("OpUnsub %s", coqFilters(fs))
-			h.spawn(op, func(q <-chan struct{}) error { return h.client.Unsubscribe(q, fs...) })
+			h.unsubscribe([]string{topics[r.intn(3)]})
 		case k < 84:
-			h.spawn("OpPing", func(q <-chan struct{}) error { return h.client.Ping(q) })
+			h.ping()
 		case k < 88:
 			// close the quit channel of a parked request
 			var rids []int
@@ -774,89 +933,50 @@ func runHistory(r *rng, o seqOpts, stats map[string]int) (term string, nontrivia
 				continue
 			}
 			sort.Ints(rids)
-			rid := rids[r.intn(len(rids))]
-			close(h.parked[rid].quit)
-			for j := 0; j < 100; j++ {
-				h.settle()
-				if len(h.parked[rid].result) != 0 {
-					break
-				}
-			}
-			h.stats["quit"]++
-			h.record(fmt.Sprintf("OpQuit %d", rid), "RetErr 0")
+			h.quit(rids[r.intn(len(rids))])
 		case k < 88+o.adoptRate:
 			h.adopt()
 		case k < 97:
 			if h.bigMsg != nil && r.chance(2, 3) {
-				b, err := h.bigMsg.ReadAll()
-				h.bigMsg = nil
-				if err != nil {
-					h.record("OpReadAll", fmt.Sprintf("RetErr %d", classOf(err)))
-				} else {
-					h.record("OpReadAll", "RetBytes "+coqBytes(b))
-				}
+				h.readAll()
 				continue
 			}
 			h.doRead()
 		case k < 99:
-			err := h.client.Close()
-			h.stats["close"]++
-			h.record("OpClose", fmt.Sprintf("RetErr %d", classOf(err)))
+			h.close()
 			// stay on a little to see ErrClosed everywhere
 			h.doRead()
 			h.doRead()
-			h.wasClosed = true
 			h.closed = r.chance(3, 4)
 		default:
-			err := h.client.Disconnect(make(chan struct{}))
-			h.stats["disconnect"]++
-			h.record("OpDisconnect", fmt.Sprintf("RetErr %d", classOf(err)))
+			h.disconnect()
 			h.doRead()
-			h.wasClosed = true
 			h.closed = r.chance(3, 4)
 		}
 	}
-
-	// leave no goroutine behind: close every client and let ReadSlices see it
-	h.store.onOp = nil
-	for _, c := range append(h.old, h.client) {
-		c.Close()
-		for j := 0; j < 4; j++ {
-			if _, _, err := c.ReadSlices(); errors.Is(err, mqtt.ErrClosed) {
-				break
-			}
-		}
-	}
-	for _, p := range h.parked {
-		select {
-		case <-p.quit:
-		default:
-			close(p.quit)
-		}
-	}
-	h.settle()
-	log.take()
-
-	term = fmt.Sprintf("Hist %s %s %s 0 [\n    %s]", cfgTerm, coqString(cid), coqEvents(initEvs), strings.Join(h.steps, ";\n    "))
-	desc = map[string]any{"kind": "history", "steps": len(h.steps), "bufsize": o.bufSize, "pause": o.pause,
-		"max": []int{o.max1, o.max2}, "fault_per_mille": o.faultRate, "store_fault_per_mille": o.storeFaults,
-		"loss_per_mille": o.lossRate, "hostile": o.hostile}
-	return term, h.nontriv, desc
 }
 
-// runHistories generates n histories inside synctest bubbles.
-func runHistories(prop, module, caseType, runFn string, seed uint64, n int, mk func(r *rng, i int) seqOpts, out string, shard int) error {
-	cs := newCaseSet(prop, module, caseType, runFn)
+// histGen produces case i of a run from its own PRNG.
+type histGen func(i int, r *rng, stats map[string]int) (term string, nontrivial bool, desc map[string]any)
+
+func randomGen(mk func(r *rng, i int) seqOpts) histGen {
+	return func(i int, r *rng, stats map[string]int) (string, bool, map[string]any) {
+		return runHistory(r, mk(r, i), stats)
+	}
+}
+
+// runGen generates n histories, each inside its own synctest bubble.
+func runGen(prop, module, runFn string, seed uint64, n int, gen histGen, out string, shard int) error {
+	cs := newCaseSet(prop, module, "histcase", runFn)
 	stats := map[string]int{}
 	r := newRng(seed)
 	for i := 0; i < n; i++ {
 		hr := newRng(r.u64())
-		o := mk(hr, i)
 		var term string
 		var nontriv bool
 		var desc map[string]any
 		synctest.Test(theT, func(t *testing.T) {
-			term, nontriv, desc = runHistory(hr, o, stats)
+			term, nontriv, desc = gen(i, hr, stats)
 		})
 		if desc == nil {
 			desc = map[string]any{"kind": "init-failed"}
@@ -868,4 +988,8 @@ func runHistories(prop, module, caseType, runFn string, seed uint64, n int, mk f
 		cs.dist[k] = v
 	}
 	return cs.write(out, shard)
+}
+
+func runHistories(prop, module, caseType, runFn string, seed uint64, n int, mk func(r *rng, i int) seqOpts, out string, shard int) error {
+	return runGen(prop, module, runFn, seed, n, randomGen(mk), out, shard)
 }
